@@ -17,6 +17,9 @@ import wire  # noqa: E402
 BLANK = (" ", ())
 
 
+REF_ONLY = ("el2", "ed1", "ed2", "ech", "il", "dl", "su", "sd", "ri", "ind", "nel", "bs", "ht", "vpa", "cnl", "cpl")
+
+
 class Term:
     def __init__(self, h, w, screen=None, r=0, c=0, scrollback=None):
         self.h, self.w = h, w
@@ -84,6 +87,8 @@ class Term:
             dc = {"cub": -op[1], "cuf": op[1]}.get(k, 0)
             self.r, self.c = self._clamp(max(self.r + dr, 0), max(self.c + dc, 0))
             self.pw = False
+        elif k in REF_ONLY:
+            self._ref_only(op)
         elif k == "put":
             for cell in op[1]:
                 self.put_cell(cell)
@@ -130,6 +135,65 @@ class Term:
             self.replies.append("\x1b[%d;%dR" % (self.r + 1, self.c + 1))
         else:
             raise KeyError(op)
+
+    def _ref_only(self, op):
+        """The rest of the erase / scroll / cursor functions of an xterm (whole-screen scrolling region).  They are NOT in
+        the Lean spec's vocabulary - the windows never write them - but the reference terminal executes them, so that the
+        oracle and the property-level screen comparison keep judging when the code starts to use one (the
+        representation-level `operations` tie then shows the different operation)."""
+        k = op[0]
+        n = op[1] if len(op) > 1 else 1
+        e = self.erased()
+        blank_row = lambda: [e] * self.w
+        if k == "el2":
+            if self.r < self.h:
+                self.grid[self.r] = blank_row()
+        elif k in ("ed1", "ed2"):
+            for r in range(self.h):
+                for c in range(self.w):
+                    if k == "ed2" or r < self.r or (r == self.r and c <= self.c):
+                        self.grid[r][c] = e
+        elif k == "ech":
+            for c in range(self.c, min(self.c + n, self.w)):
+                self.grid[self.r][c] = e
+        elif k in ("il", "dl"):
+            n = min(n, self.h - self.r)
+            if k == "il":
+                self.grid[self.r:self.r] = [blank_row() for _ in range(n)]
+                del self.grid[self.h:]
+            else:
+                del self.grid[self.r:self.r + n]
+                self.grid += [blank_row() for _ in range(n)]
+            self.c = 0
+        elif k == "su":
+            for _ in range(min(n, self.h)):
+                self.scroll_up()
+        elif k == "sd":
+            n = min(n, self.h)
+            self.grid[0:0] = [blank_row() for _ in range(n)]
+            del self.grid[self.h:]
+        elif k == "ri":
+            if self.r > 0:
+                self.r -= 1
+            elif self.h:
+                self.grid[0:0] = [blank_row()]
+                del self.grid[self.h:]
+        elif k == "ind":
+            self.index()
+        elif k == "nel":
+            self.c = 0
+            self.index()
+        elif k == "bs":
+            self.c = max(self.c - 1, 0)
+        elif k == "ht":
+            self.c = min((self.c // 8 + 1) * 8, max(self.w - 1, 0))
+        elif k == "vpa":
+            self.r, _ = self._clamp(op[1], 0)
+        elif k in ("cnl", "cpl"):
+            self.r, self.c = self._clamp(max(self.r + (n if k == "cnl" else -n), 0), 0)
+        else:
+            raise KeyError(op)
+        self.pw = False
 
     def run(self, ops):
         for op in ops:
@@ -213,9 +277,11 @@ def caps():
 class StreamTokenizer:
     """Turns the BYTE STREAM the window wrote into TermOps, however it was split into write() calls: a standard
     ECMA-48 reader for the control functions the terminal spec understands, in any equivalent spelling
-    (ESC[H = ESC[1;1H, missing parameters, CR = column 0, f = H, ...).  Printable text and SGR sequences become `put`
-    with the cells the graphic state in force gives (the state is threaded through the whole stream).  A control
-    function outside the spec's vocabulary raises Untokenisable: the reference terminal cannot show it."""
+    (ESC[H = ESC[1;1H, missing parameters, CR = column 0, f = H, ...), plus the remaining erase / scroll / cursor
+    functions as reference-only operations (Term._ref_only).  Printable text and SGR sequences become `put` with the
+    cells the graphic state in force gives (the state is threaded through the whole stream).  Only a stream the
+    reference terminal cannot read at all (OSC/DCS strings, character-set switches, other C0/C1 controls, unknown
+    private modes) raises Untokenisable."""
 
     def __init__(self):
         self.g = {}             # current graphic state
@@ -262,10 +328,20 @@ class StreamTokenizer:
             ops.append(("cha", max(arg(0, 1), 1) - 1))
         elif final in "ABCD":
             ops.append(({"A": "cuu", "B": "cud", "C": "cuf", "D": "cub"}[final], max(arg(0, 1), 1)))
-        elif final == "K" and arg(0, 0) in (0, 1):
-            ops.append(("el0",) if arg(0, 0) == 0 else ("el1",))
-        elif final == "J" and arg(0, 0) == 0:
-            ops.append(("ed0",))
+        elif final == "K" and arg(0, 0) in (0, 1, 2):
+            ops.append((("el0",), ("el1",), ("el2",))[arg(0, 0)])
+        elif final == "J" and arg(0, 0) in (0, 1, 2):
+            ops.append((("ed0",), ("ed1",), ("ed2",))[arg(0, 0)])
+        elif final in "XLMSTEF":
+            ops.append(({"X": "ech", "L": "il", "M": "dl", "S": "su", "T": "sd", "E": "cnl", "F": "cpl"}[final], max(arg(0, 1), 1)))
+        elif final == "d":
+            ops.append(("vpa", max(arg(0, 1), 1) - 1))
+        elif final == "`":
+            ops.append(("cha", max(arg(0, 1), 1) - 1))
+        elif final == "s" and not nums:
+            ops.append(("decsc",))
+        elif final == "u" and not nums:
+            ops.append(("decrc",))
         elif final == "n" and arg(0, 0) == 6:
             ops.append(("dsr",))
         elif final == "t" and arg(0, 0) in (22, 23):
@@ -287,6 +363,17 @@ class StreamTokenizer:
                 elif ch == "\r":
                     self._flush(ops)
                     ops.append(("cha", 0))
+                elif ch in "\x0b\x0c":                    # VT, FF: line feeds
+                    self._flush(ops)
+                    ops.append(("lf",))
+                elif ch == "\x08":
+                    self._flush(ops)
+                    ops.append(("bs",))
+                elif ch == "\t":
+                    self._flush(ops)
+                    ops.append(("ht",))
+                elif ch < " " or ch == "\x7f" or "\x80" <= ch <= "\x9f":
+                    raise Untokenisable("control character %r is outside what the reference terminal reads" % ch)
                 else:
                     self.cells.append((ch, sgrterm.freeze(self.g)))
             elif self.state == "esc":
@@ -299,6 +386,9 @@ class StreamTokenizer:
                 elif ch == "8":
                     self._flush(ops)
                     ops.append(("decrc",))
+                elif ch in "DEM":
+                    self._flush(ops)
+                    ops.append(({"D": "ind", "E": "nel", "M": "ri"}[ch],))
                 else:
                     raise Untokenisable("ESC %r is outside the terminal spec" % ch)
             else:
@@ -416,10 +506,8 @@ def dec_ops(s):
         p = x.split(".")
         if p[0] == "put":
             out.append(("put", tuple(dec_row(p[1])), sgrterm.freeze(wire.dec_atts(p[2]))))
-        elif p[0] in ("cup", "cha", "cuu", "cud", "cuf", "cub"):
-            out.append((p[0],) + tuple(int(v) for v in p[1:]))
         else:
-            out.append((p[0],))
+            out.append((p[0],) + tuple(int(v) for v in p[1:] if v.isdigit()))
     return out
 
 
